@@ -2340,7 +2340,7 @@ def glom(target, spec, **kwargs):
         else:  # wrapping failed, fall back to default behavior
             raise
 
-    if err:
+    if err is not None:
         raise err
     return ret
 
